@@ -56,6 +56,7 @@ def strategy(tier):
         'term': st.sampled_from(['body', 'body', 'eofnl', 'eof']),
         'nl': st.sampled_from(['\n', '\n', '\r\n']),
         'yaml': st.sampled_from([0, 0, 1]),
+        'dashes': st.sampled_from([3, 3, 3, 4, 7, 2, 1]),     # length of the opening fence; below three dashes the line is no fence, and then queries and conversion must agree on that
         'body': st.sampled_from(['Body text here.', '# Heading\n\ntext *em* &amp; more', 'a: not meta\n\n* list', '   indented body', '中文 body']),
         'ops': st.lists(opst, max_size=4),
         'blank': st.sampled_from(['', '', '', '\t', ' \t', '    \t', '   ', ' ', '\t\t']),      # the "blank" line that ends the block may hold white space
@@ -125,7 +126,7 @@ def build(case):
         for c in conts:
             lines.append(ind + c)
     src = ''
-    fence_open = {0: None, 1: '---', 2: '---'}[case['yaml']]
+    fence_open = {0: None, 1: '-' * case.get('dashes', 3), 2: '---'}[case['yaml']]
     fence_close = {0: None, 1: '---', 2: '...'}[case['yaml']]
     if fence_open:
         src += fence_open + nl
@@ -227,6 +228,17 @@ def check(case, ctx):
     ctx.cls('yaml_%d' % case['yaml'])
     api = Api(ctx.w, fam, src)
     try:
+        if case['yaml'] and case.get('dashes', 3) < 3:
+            # not a fence by the syntax (three or more dashes): whatever the reading, the queries and the conversion have to share it
+            has, e = api.has()
+            ks = api.keys() or ''
+            page = api.html()
+            first = [nk for (k, nk, v) in ents if nk not in SPECIAL or nk == 'title'][:1]
+            in_page = bool(first) and (('<meta name="%s"' % htmlmod.escape(first[0], quote=True)) in page if first[0] != 'title' else '<title>' in page)
+            ctx.cls('short_fence_agreement_checked')
+            if first and (has != in_page or has != bool(ks.strip())):
+                raise Violation('short-fence:queries-and-conversion-disagree', 'has_metadata=%s keys=%r, but the complete HTML %s the first key %r; source %r' % (has, ks, 'carries' if in_page else 'does not carry', first[0], src))
+            return
         check_block(api, ents, end, None, 'initial', src, bool(case['yaml']))
         # (5) complete HTML carries the values
         page = api.html()
